@@ -45,11 +45,21 @@ func updateImports(name, src string) (updated []*ast.ImportSpec, err error) {
 		return updated, fmt.Errorf("failed to get imports from updated go code: %w", err)
 	}
 	for _, imp := range gofile.Imports {
-		if !slices.Contains(internalImports, strings.Trim(imp.Path.Value, "\"")) {
+		if !isGeneratedImport(imp) {
 			updated = append(updated, imp)
 		}
 	}
 	return updated, nil
+}
+
+// isGeneratedImport reports whether the import is one that the generator adds to the
+// generated code itself. An import of the same package under another name is the
+// template author's and has to stay in the template.
+func isGeneratedImport(imp *ast.ImportSpec) bool {
+	if !slices.Contains(internalImports, strings.Trim(imp.Path.Value, "\"")) {
+		return false
+	}
+	return imp.Name == nil || imp.Name.Name == "templruntime"
 }
 
 func Process(t parser.TemplateFile) (parser.TemplateFile, error) {
